@@ -101,10 +101,10 @@ func Props(c *Ctx) map[string]*Prop {
 	add(&Prop{ID: "C10",
 		Explanation: "A complete structural argument that a non-EOF error of the source's ReadRune reaches ParseCommands' caller: the source is read in exactly one function (EF1), which records every such error when the slot is empty (EF1); no store of a syntax error can replace a recorded reader error (EF2); ParseCommands returns that slot after joining the lexer (EF3, CC2); every scanner loop leaves on a failed read instead of spinning (RC2). errors.Is on wrapped errors is not modelled (the slot stores the reader's value itself).",
 		Assumptions: []string{"bufio.Reader / strings.Reader return the underlying reader's error unchanged"},
-		Rules:       []Rule{ruleGT1(), ruleCC11("parser"), ruleEF1(), ruleEF2(), ruleRC2("parser"), ruleCC2("parser"), ruleCC7(), ruleCC8("parser"), ruleEF8(), ruleSRC2()}})
+		Rules:       []Rule{ruleRD2(), ruleGT1(), ruleCC11("parser"), ruleEF1(), ruleEF2(), ruleRC2("parser"), ruleCC2("parser"), ruleCC7(), ruleCC8("parser"), ruleEF8(), ruleSRC2()}})
 	add(&Prop{ID: "C03",
 		Explanation: "Decides only that every syntax error value is located: built with the caller's name and a recorded, non-zero position expression, that Lex records the position of every token it delivers, and that the lexer's error function discards a reported syntax error only when another error is already recorded (ER1). Rejection of ill-formed programs itself (language recognition) is not decidable structurally.",
-		Rules:       []Rule{ruleQB1(), ruleGT1(), ruleNL1(), ruleNL2(), ruleSIB1(), ruleBQ1(), ruleGR7(), ruleEF6(), ruleER1(), ruleHD7(), ruleLX("HD5"), ruleTK("TK1", "TK2"), ruleEF1()}})
+		Rules:       []Rule{ruleRD2(), ruleQB1(), ruleGT1(), ruleNL1(), ruleNL2(), ruleSIB1(), ruleBQ1(), ruleGR7(), ruleEF6(), ruleER1(), ruleHD7(), ruleLX("HD5"), ruleTK("TK1", "TK2"), ruleEF1()}})
 	add(&Prop{ID: "C18",
 		Explanation: "Decides purity, determinism and error reporting of the printer structurally: its only AST writes are the hide/undo idiom and every hide is undone by a deferred closure on all paths (PU1); nothing reachable from Fprint is a source of nondeterminism (PU2); all output goes through one buffered writer whose sticky error is returned through print, Config.Fprint and Fprint (EF5); here-document frames are balanced (PU8); the positions it consults are counted in characters (BR1, TB5) and nothing reachable from Fprint can panic (PF1). That the output is a fix-point of print∘parse is a value-level property and is not decided.",
 		Assumptions: []string{"bufio.Writer's sticky-error contract"},
@@ -126,7 +126,7 @@ func Props(c *Ctx) map[string]*Prop {
 	add(&Prop{ID: "C13",
 		Explanation: "Decides the operator × state × nounset × special table of parameter expansion completely: for each of the 624 consistent valuations the outcome of every path of expandParam (value, word expanded, assignment, pattern removal, length, error kind) is extracted from the control-flow graph and compared with POSIX's table, including 'the word is expanded only when it is used' and 'assignment only under = / :=' (DT1); ${#p} counts runes (BR2); operator and special-parameter sets agree across packages (TB8, TB10, TB13); Set discipline (PU6/PU7); no panic (PF1). Field generation for $@ / $*, quoting of results and IFS joins are value-level and not decided.",
 		Assumptions: []string{"POSIX XCU 2.6.2 table frozen in the checker as oracle", "go.sh's documented Arith mode passes plain names through"},
-		Rules: []Rule{ruleSP4(), ruleBR5(), ruleQU1c(), ruleQU4(), ruleQU3b(), ruleOP1(), ruleAR6(), ruleDT1(), ruleBR2(), rulePU4(), ruleNG1("interp"), rulePP1(), ruleTB8(), ruleTB10(), ruleTB13(), rulePU6(), ruleFLD1(), ruleFLD2(), rulePF5(), ruleEF7(), ruleYY1("interp"), rulePF2(), ruleTB2(), ruleSP(),
+		Rules: []Rule{ruleBR7(), ruleSP4(), ruleBR5(), ruleQU1c(), ruleQU4(), ruleQU3b(), ruleOP1(), ruleAR6(), ruleDT1(), ruleBR2(), rulePU4(), ruleNG1("interp"), rulePP1(), ruleTB8(), ruleTB10(), ruleTB13(), rulePU6(), ruleFLD1(), ruleFLD2(), rulePF5(), ruleEF7(), ruleYY1("interp"), rulePF2(), ruleTB2(), ruleSP(),
 			pf1Rule("no index/slice/assertion in the expansion functions can panic", 20,
 				func(c *Ctx) (map[*core.Func]bool, map[*core.Func]bool) {
 					return c.scopeOf("interp.(*ExecEnv).Expand"), nil
@@ -137,13 +137,13 @@ func Props(c *Ctx) map[string]*Prop {
 	add(&Prop{ID: "C04",
 		Explanation: "Decides that columns are counted in characters at every site that manufactures a position (taint from byte lengths/offsets to NewPos, shift and the cursor, BR1) and that End() adds the width of the token actually stored in the field (TB5). That each fixed offset equals the number of characters read since the documented character, containment and ordering of positions are value-level and not decided.",
 		Assumptions: []string{"operator and reserved-word spellings are ASCII (checked against the tables)", "Comment.End is excluded by the property's text"},
-		Rules:       []Rule{ruleBR6(), ruleUR1(), ruleNL2(), ruleLB3(), ruleESC3(), ruleESC2(), rulePS2(), ruleBR1(), ruleTB5(), ruleGR1("parser"), ruleLX("PO1"), ruleRD1(), ruleSRC2(), ruleCM3(), ruleMK1(), ruleLBK()}})
+		Rules:       []Rule{rulePS3(), ruleBR6(), ruleUR1(), ruleNL2(), ruleLB3(), ruleESC3(), ruleESC2(), rulePS2(), ruleBR1(), ruleTB5(), ruleGR1("parser"), ruleLX("PO1"), ruleRD1(), ruleSRC2(), ruleCM3(), ruleMK1(), ruleLBK()}})
 	add(&Prop{ID: "C07",
 		Explanation: "Decides a necessary condition of 'one call, one command': the newline that ends a command is never consumed silently — the newline-swallowing scanner is called only at grammar linebreak positions and never from the raw token scanner (RC4); and the reader is only touched by read/unread so look-ahead is undone through one place (EF1). Where exactly a command ends is language-level and not decided.",
-		Rules:       []Rule{ruleHD10(), rulePU3(), ruleCM3(), ruleTL1(), ruleLBK(), ruleHD9(), rulePS2(), ruleRC4(), ruleRC7(), ruleEF1(), ruleCC2("parser"), ruleHD(), ruleLX("HD1b"), ruleTK("SRC1"), ruleSRC2(), ruleNG1("parser")}})
+		Rules:       []Rule{ruleQU(), ruleCM7(), ruleHD10(), rulePU3(), ruleCM3(), ruleTL1(), ruleLBK(), ruleHD9(), rulePS2(), ruleRC4(), ruleRC7(), ruleEF1(), ruleCC2("parser"), ruleHD(), ruleLX("HD1b"), ruleTK("SRC1"), ruleSRC2(), ruleNG1("parser")}})
 	add(&Prop{ID: "C08",
 		Explanation: "Decides the structure of here-document handling: announce/push/pop protocol and FIFO order (CC6), no look-ahead needed to push (GR4 with GR1), operator-dependent delimiter search, literal body iff the delimiter of that very here-document was quoted, delimiter only at column 1 (HD), every state that emits a redirection operator counts an announced here-document (HD6), no panic in the body reader (PF1). Byte-exact bodies and delimiter matching after quote removal are value-level and not decided.",
-		Rules: []Rule{ruleHD10(), ruleESC3(), ruleESC2(), ruleCC14("parser"), ruleHD9(), rulePS2(), ruleCC6(), ruleGR1("parser"), ruleGR4(), ruleHD(), ruleHD6(), ruleHD7(), ruleLBK(), ruleSRC2(), ruleLX("HD1b", "HD5"),
+		Rules: []Rule{ruleHD11(), ruleHD10(), ruleESC3(), ruleESC2(), ruleCC14("parser"), ruleHD9(), rulePS2(), ruleCC6(), ruleGR1("parser"), ruleGR4(), ruleHD(), ruleHD6(), ruleHD7(), ruleLBK(), ruleSRC2(), ruleLX("HD1b", "HD5"),
 			pf1Rule("no index/slice/assertion in the here-document reader can panic", 3,
 				func(c *Ctx) (map[*core.Func]bool, map[*core.Func]bool) {
 					s := map[*core.Func]bool{}
@@ -166,10 +166,10 @@ func Props(c *Ctx) map[string]*Prop {
 				}), ruleCM3()}})
 	add(&Prop{ID: "C09",
 		Explanation: "Decides only three side conditions of layout inertness: a comment can never make the lexer swallow the newline token (RC4) and comments inside substitutions are merged into the result on every successful path (CM1, reported by RC6); in a for header the lexer skips the linebreak after each separator before it looks for `do` (LB1). The metamorphic equalities themselves are not decidable structurally.",
-		Rules:       []Rule{ruleUR1(), ruleW1(), ruleLB3(), ruleTL1(), ruleHD9(), ruleRC4(), ruleRC6(), ruleLB1(), ruleLBK(), ruleLX("CM2"), ruleCM3(), ruleTK("TK2")}})
+		Rules:       []Rule{ruleCM7(), ruleUR1(), ruleW1(), ruleLB3(), ruleTL1(), ruleHD9(), ruleRC4(), ruleRC6(), ruleLB1(), ruleLBK(), ruleLX("CM2"), ruleCM3(), ruleTK("TK2")}})
 	add(&Prop{ID: "C14",
 		Explanation: "Decides side conditions of field splitting: quoted segments bypass the cutter, are joined as quoted and keep a field alive (SP1), unset IFS means space-tab-newline (SP2), cut offsets advance by the rune's encoded width (BR3), the two parallel slices of a field stay in step (FLD2), no panic in split (PF1). The cutter's state machine itself is value-level and not decided.",
-		Rules: []Rule{ruleBR5(), ruleQU1c(), ruleQU3b(), ruleFE1(), ruleSP(), ruleFLD2(), rulePU4(), ruleNG1("interp"),
+		Rules: []Rule{ruleBR7(), ruleBR5(), ruleQU1c(), ruleQU3b(), ruleFE1(), ruleSP(), ruleFLD2(), rulePU4(), ruleNG1("interp"),
 			pf1Rule("no index/slice in split can panic", 3,
 				func(c *Ctx) (map[*core.Func]bool, map[*core.Func]bool) {
 					return c.scopeOf("interp.(*ExecEnv).split"), nil
@@ -179,6 +179,6 @@ func Props(c *Ctx) map[string]*Prop {
 		Rules:       []Rule{ruleQB1(), ruleQU1c(), ruleQU4(), ruleW1(), ruleESC3(), ruleESC2(), ruleQU(), ruleTB7(), ruleTB4(), ruleSP(), rulePF2(), ruleNG1("pattern", "interp"), ruleRD1(), ruleSRC2(), ruleESC1(), ruleGL()}})
 	add(&Prop{ID: "C17",
 		Explanation: "Decides termination and position side conditions of alias substitution: an alias is pushed only after a membership test on the active stack (RC3), only a single unquoted literal can be substituted, assignments are recognised first, and substitution happens only at command-name / alias-continuation positions (AL1); the 'ends in a blank' test uses the scanner's blank set (TB11 in TB7); alias-driven loops are the only non-read-driven cycles (RC2); the nested lexer of a command substitution shares the alias stack, so an alias value containing `$(` is lexed as text of the alias (NL1). Equality with textual replacement is language-level and not decided.",
-		Rules:       []Rule{ruleAL5(), ruleAL4(), ruleRC3(), ruleTB7(), ruleRC2("parser"), ruleLX("AL2", "AL3"), ruleNL1(), ruleNL2(), ruleRC8()}})
+		Rules:       []Rule{ruleNL3(), ruleCM7(), ruleAL5(), ruleAL4(), ruleRC3(), ruleTB7(), ruleRC2("parser"), ruleLX("AL2", "AL3"), ruleNL1(), ruleNL2(), ruleRC8()}})
 	return m
 }
